@@ -100,28 +100,44 @@ def _quantity(draw, c, spend=True):
     return draw(st.sampled_from(c[{"charac": "characs", "comp": "comps", "par": "pars", "flow": "flows", "link": "links"}[kind]]))
 
 
-def _measurables(draw, c, s, from_year):
+def _hard_target(draw, c, s, from_year, zero_progs=()):
+    cls = draw(st.sampled_from(["atmost", "atleast", "incby", "decby", "decby"]))
+    m = {"cls": cls}
+    if cls in ("atmost", "atleast"):
+        m["name"] = _quantity(draw, c, spend=False)
+        m["thr"] = draw(st.sampled_from([1.0, 1.001, 1.05, 2.0, 0.9] if cls == "atmost" else [1.0, 0.999, 0.95, 0.5, 1.1]))
+    else:
+        # relative to the value under the caller's instructions; with unfunded programs that value is exactly 0 for their spending and for the flows only they drive
+        m["name"] = draw(st.sampled_from(list(zero_progs) + c["flows"])) if (zero_progs and not _one_in(draw, 3)) else _quantity(draw, c)
+        m["target_type"] = draw(st.sampled_from(["frac", "frac", "abs"]))
+        m["amount"] = draw(st.sampled_from([0.0, 0.0, 0.001, 0.05, 0.5]))
+    spend = m["name"] in [p for p, _ in c["progs"]]
+    m["t"] = _tspec(draw, s, from_year)
+    m["pops"] = None if spend else _pops(draw, c)
+    return m
+
+
+def _measurables(draw, c, s, from_year, zero_progs=()):
     out = []
     for _ in range(draw(st.sampled_from([1, 1, 2]))):
         name = _quantity(draw, c)
         spend = name in [p for p, _ in c["progs"]]
         out.append({"cls": "min" if spend else draw(st.sampled_from(["min", "max"])), "name": name, "t": _tspec(draw, s, from_year), "pops": None if spend else _pops(draw, c)})
-    if _one_in(draw, 3):
-        cls = draw(st.sampled_from(["atmost", "atleast"]))
-        thr = draw(st.sampled_from([1.0, 1.001, 1.05, 2.0, 0.9] if cls == "atmost" else [1.0, 0.999, 0.95, 0.5, 1.1]))
-        out.append({"cls": cls, "name": _quantity(draw, c, spend=False), "t": _tspec(draw, s, from_year), "pops": _pops(draw, c), "thr": thr})
+    if _one_in(draw, 3) or (zero_progs and not _one_in(draw, 3)):
+        out.append(_hard_target(draw, c, s, from_year, zero_progs))
     return out
 
 
 def _alloc(draw, c, start_year):
     """allocation of the caller's instructions: copied from the progset / absent / one value per program / time series whose values
     differ between the years (mode 'series': in the instructions, mode 'book': in the program book's spending data, no overwrite)"""
-    mode = draw(st.sampled_from(["progset", "progset", "none", "dict", "series", "series", "series", "book"]))
+    mode = draw(st.sampled_from(["progset", "progset", "none", "dict", "dict", "series", "series", "series", "book"]))
     vals = {}
     if mode == "dict":
+        zero = _one_in(draw, 2)  # some programs unfunded at the start (quantities that are exactly 0 under the caller's instructions)
         for p, v in c["progs"]:
-            if not _one_in(draw, 4):
-                vals[p] = [[start_year], [v * draw(st.sampled_from([0.5, 1.0, 1.0, 2.0]))]]
+            if zero or not _one_in(draw, 4):
+                vals[p] = [[start_year], [v * draw(st.sampled_from([0.0, 0.0, 1.0, 1.0, 2.0] if zero else [0.5, 1.0, 1.0, 2.0]))]]
     elif mode in ("series", "book"):
         k = draw(st.sampled_from([1, 2, 2, 3]))
         for p, v in draw(st.lists(st.sampled_from(c["progs"]), min_size=k, max_size=k, unique=True)):
@@ -149,6 +165,11 @@ def _adjustments(draw, c, alloc, start_year, finite=False):
     varying = [p for p in progs if alloc["mode"] in ("series", "book") and p in alloc["vals"]]
     if varying and not _one_in(draw, 5):
         chosen = (varying + [p for p in chosen if p not in varying])[:k]  # programs whose starting spend changes over time come first
+    unfunded = [p for p in progs if alloc["mode"] == "dict" and p in alloc["vals"] and alloc["vals"][p][1][0] == 0.0]
+    if unfunded and not _one_in(draw, 4):
+        k = max(k, 2)
+        funded = [p for p in chosen if p not in unfunded] or [p for p in progs if p not in unfunded][:1]
+        chosen = (unfunded[:1] + funded + unfunded[1:])[:k]  # an unfunded program that can be funded, next to a funded one
     all_years = [start_year, start_year + 1.0, start_year + 2.0]
     shared = sorted(draw(st.lists(st.sampled_from(all_years), min_size=1, max_size=3, unique=True)))
     adj = []
@@ -159,13 +180,18 @@ def _adjustments(draw, c, alloc, start_year, finite=False):
             years = shared
         else:
             years = sorted(draw(st.lists(st.sampled_from(all_years), min_size=1, max_size=3, unique=True)))
-        limit = draw(st.sampled_from(["abs", "rel"] if p in varying else ["abs", "abs", "rel"]))
+        limit = "abs" if p in unfunded else draw(st.sampled_from(["abs", "rel"] if p in varying else ["abs", "abs", "rel"]))
         lower, upper, initial = [], [], []
         for t in years:
             cur = _current(c, alloc, start_year, p, t)
             fl = draw(st.sampled_from([0.0, 0.0, 0.5, 0.9, 1.0]))
             fu = draw(st.sampled_from(([] if finite else ["inf", "inf"]) + [1.0, 1.1, 1.5, 3.0]))
             g = draw(st.sampled_from([None, None, None, None, "lo", "one", "hi"]))
+            if cur == 0:
+                lower.append(0.0)
+                upper.append("inf" if fu == "inf" else dict(c["progs"])[p] * fu)  # nothing is spent: bounds on the scale of the program book spend
+                initial.append(None)
+                continue
             if _one_in(draw, 40):
                 fl = 1.25  # deliberately outside: InvalidInitialConditions expected
             init = None
@@ -230,7 +256,8 @@ def optimize_cases(draw, kind, fault_iters=6):
         rows = _rows_pure(c, case)
         tot = [None if draw(st.booleans()) else math.fsum(r["x0"] for r in rows if r["t"] == t) * draw(st.sampled_from([0.9, 1.0, 1.1])) for t in ty]
         case["con"] = {"t": ty, "total": tot, "bf": 1.0}
-    case["meas"] = _measurables(draw, c, s, min(years))  # mostly after the first adjusted year, so that the objective can respond
+    zero_progs = sorted(set(r["prog"] for r in _rows_pure(c, case) if r["cur"] == 0))
+    case["meas"] = _measurables(draw, c, s, min(years), zero_progs)  # mostly after the first adjusted year, so that the objective can respond
     case["budget"] = _budget(draw, small=(fault_iters if kind == "optimize-fault" else 0))
     case["randseed"] = draw(st.integers(0, 2**31 - 1))
     if _one_in(draw, 4):
@@ -241,12 +268,16 @@ def optimize_cases(draw, kind, fault_iters=6):
 @st.composite
 def calibrate_cases(draw, kind, fault_iters=6):
     cat = H.catalogue()
-    model = draw(st.sampled_from(H.MODELS))
+    model = draw(st.sampled_from(H.CAL_MODELS + (H.TRANSFER_MODEL,)))
     c = cat[model]
     s = _settings(draw, c, min(d[2] for d in c["data"]) >= c["start"] + 0.5)  # the moved start year must stay before the first data point
     dvars = c["data"]
     k = draw(st.sampled_from([1, 1, 2, 3]))
     chosen = draw(st.lists(st.sampled_from(dvars), min_size=k, max_size=k, unique_by=lambda d: d[0]))
+    transfer = draw(st.sampled_from(c["transfers"])) if (c["transfers"] and not _one_in(draw, 4)) else None
+    if transfer is not None and not _one_in(draw, 3):
+        # the size of the receiving population is what a transfer rate moves
+        chosen = [d for d in dvars if d[0] == "all_people" and d[1] == transfer[1]][:1] + [d for d in chosen if d[0] != "all_people"][: k - 1]
     string_meas = _one_in(draw, 10)
     meas = []
     for q, pn, _, _ in chosen:
@@ -263,6 +294,13 @@ def calibrate_cases(draw, kind, fault_iters=6):
     pars = ([chosen[0][0]] + [p for p in others if p != chosen[0][0]])[:n] if coupled else others
     string_adj = _one_in(draw, 10)
     adj, y0 = [], []
+    if transfer is not None:
+        # a transfer is adjusted as ('<code>_from_<source pop>', '<destination pop>', low, high)
+        adj.append([transfer[0], transfer[1], draw(st.sampled_from([0.1, 0.5])), draw(st.sampled_from([2.0, 5.0]))])
+        if _one_in(draw, 4):
+            y0.append([transfer[0], transfer[1], draw(st.sampled_from([0.8, 1.3]))])
+        if coupled and _one_in(draw, 2):
+            pars = []
     for i, p in enumerate(pars):
         if string_adj:
             adj.append(p)
@@ -325,7 +363,8 @@ def differential_cases(draw):
             m["target_type"] = draw(st.sampled_from(["frac", "frac", "abs"]))
             m["amount"] = draw(st.sampled_from([0.0, 0.001, 0.01, 0.05, 0.5]))
         meas.append(m)
-    return {"kind": "objective-differential", "model": model, "settings": s, "start_year": start_year, "alloc": alloc, "meas": meas}
+    base_alloc = _alloc(draw, c, start_year)  # the 'original instructions' that relative targets refer to (may leave programs unfunded)
+    return {"kind": "objective-differential", "model": model, "settings": s, "start_year": start_year, "alloc": alloc, "base_alloc": base_alloc, "meas": meas}
 
 
 def strategy(tier):
@@ -470,9 +509,14 @@ def _close(a, b):
 
 def _run_optimize(at, case, P, ps, pg, inst, meas, fail_at=None, record=True):
     opt, optim_args = _build_optimization(at, case, meas, P.settings.tvec)
-    rec = (lambda model: H.own_objective(model, meas)) if record else None
-    res = {"opt": opt}
-    with H.Tap(fail_at=fail_at, record=rec) as tap:
+    flags = []
+
+    def rec(model):
+        flags.append(H.any_borderline(model, meas))
+        return H.own_objective(model, meas)
+
+    res = {"opt": opt, "flags": flags}
+    with H.Tap(fail_at=fail_at, record=rec if record else None) as tap:
         try:
             res["out"] = at.optimize(P, opt, ps, pg, inst, optim_args=optim_args)
             res["outcome"] = "ok"
@@ -518,6 +562,10 @@ def _check_optimize(case):
         labels.append("measurable:%s/%s/%s%s" % (m["cls"], _qkind(c, m["name"]), "year" if "idx" in m["t"] else "period", "/pops" if m.get("pops") else ""))
         if m["cls"] in ("atmost", "atleast"):
             m["threshold"] = float(m["thr"]) * H.own_quantity(base.model, m["name"], m["t"], m.get("pops"))
+        elif m["cls"] in ("incby", "decby"):
+            m["base"] = H.own_quantity(base.model, m["name"], m["t"], m.get("pops"))  # the value under the caller's original instructions
+            if m["base"] == 0:
+                labels.append("relative-target-on-zero-baseline")
         meas.append(m)
     f_caller = H.own_objective(base.model, meas)
 
@@ -563,6 +611,10 @@ def _check_optimize(case):
             raise Violation(ID, "unresolvable/simulated-before-rejecting", "%d simulations were run before UnresolvableConstraint was raised; %s" % (n_ref, desc))
         return {"nontrivial": True, "labels": labels + ["unresolvable-before-any-simulation"]}
 
+    if any(ref["flags"]):
+        # a hard target was within rounding of its threshold at some evaluated point: the optimiser's accept/reject decisions cannot be predicted
+        return {"nontrivial": False, "labels": labels + ["inconclusive:hard-target-within-rounding-of-threshold"], "inconclusive": {"hard-target-borderline": 1}}
+
     # ---- InvalidInitialConditions verdict
     f_start = ref["values"][1] if len(ref["values"]) > 1 else None
     if ref["outcome"] == "invalid":
@@ -597,20 +649,37 @@ def _check_optimize(case):
     model = res.model
     f_ret = H.own_objective(model, meas)
 
+    # ---- (2) every hard target the starting point met (all of them: the start objective is finite) is met by the returned instructions
+    for m in meas:
+        if m["cls"] in H.HARD:
+            v = H.own_quantity(model, m["name"], m["t"], m.get("pops"))
+            violated, near = H.target_state(m, v)
+            if near:
+                labels.append("hard-target:borderline")
+            elif violated:
+                raise Violation(ID, "hard-target-lost", "%s target on %r (pops %r, t %r) met at the start but the returned instructions give %r (threshold %r, value under the original instructions %r, amount %r %s); %s" % (m["cls"], m["name"], m.get("pops"), m["t"], v, m.get("threshold"), m.get("base"), m.get("amount"), m.get("target_type"), desc))
+            else:
+                labels.append("hard-target:kept")
+
     # ---- (1) differential: Measurable values == own values
     tot_impl = 0.0
+    baselines = []
     for m, mobj in zip(meas, ref["opt"].measurables):
         own_q = H.own_quantity(model, m["name"], m["t"], m.get("pops"))
         own_t = H.own_term(model, m, own_q)
         got_q = float(at.Measurable.get_objective_val(mobj, model, None))
-        got_t = float(mobj.eval(model, None))
+        bl = mobj.get_baseline(base.model)
+        baselines.append(bl)
+        if m["cls"] in ("incby", "decby") and (bl is None or not _close(float(bl), m["base"])):
+            raise Violation(ID, "objective/baseline-differs", "%s baseline %r, documented sum under the original instructions %r; %s" % (m["cls"], bl, m["base"], desc))
+        got_t = float(mobj.eval(model, bl))
         tot_impl += got_t
         if not _close(got_q, own_q):
             raise Violation(ID, _diff_bucket(c, m, model), "Measurable(%r, t=%r, pops=%r) value %r, documented sum %r; %s" % (m["name"], m["t"], m.get("pops"), got_q, own_q, desc))
-        borderline = m["cls"] in ("atmost", "atleast") and abs(own_q - m["threshold"]) <= 1e-12 * max(1.0, abs(m["threshold"]))
+        borderline = m["cls"] in H.HARD and H.target_state(m, own_q)[1]
         if not _close(got_t, own_t) and not borderline:
-            raise Violation(ID, "objective/term-differs", "%s term %r, own %r (quantity %r, threshold %r); %s" % (m["cls"], got_t, own_t, own_q, m.get("threshold"), desc))
-    got_total = float(ref["opt"].compute_objective(model, [None] * len(meas)))
+            raise Violation(ID, "objective/term-differs", "%s term %r, own %r (quantity %r, threshold %r, value under the original instructions %r); %s" % (m["cls"], got_t, own_t, own_q, m.get("threshold"), m.get("base"), desc))
+    got_total = float(ref["opt"].compute_objective(model, baselines))
     if not _close(got_total, tot_impl):
         raise Violation(ID, "objective/total-not-sum-of-terms", "compute_objective %r, sum of the terms %r; %s" % (got_total, tot_impl, desc))
 
@@ -646,15 +715,6 @@ def _check_optimize(case):
                 continue
             if before.get(p, {}).get(t) != after.get(p, {}).get(t):
                 raise Violation(ID, "unadjusted-spending-changed", "%s in %r is not adjustable but went %r -> %r; %s" % (p, t, before.get(p, {}).get(t), after.get(p, {}).get(t), desc))
-    for m in meas:
-        if m["cls"] in ("atmost", "atleast"):
-            v = H.own_quantity(model, m["name"], m["t"], m.get("pops"))
-            if abs(v - m["threshold"]) <= 1e-12 * max(1.0, abs(m["threshold"])):
-                labels.append("hard-target:borderline")
-                continue
-            if (m["cls"] == "atmost" and v > m["threshold"]) or (m["cls"] == "atleast" and v < m["threshold"]):
-                raise Violation(ID, "hard-target-lost", "%s target on %r met at the start but the returned point has %r vs threshold %r; %s" % (m["cls"], m["name"], v, m["threshold"], desc))
-            labels.append("hard-target:kept")
 
     acc = _accepted(ref["values"][2:]) if len(ref["values"]) > 2 else 0
     labels.append("accepted-steps:%s" % (acc if acc < 2 else ("2-4" if acc < 5 else "5+")))
@@ -738,10 +798,7 @@ def _prepare_calibration(case):
         ts = P.data.tdve[q].ts[pn]
         ts.insert(float(t), float(f) * float(ts.vals[0]))
     for p, pop, y in case["y0"]:
-        if pop == "all":
-            ps.pars[p].meta_y_factor = float(y)
-        else:
-            ps.pars[p].y_factor[pop] = float(y)
+        _set_factor(ps, p, pop, float(y))
     return at, P, ps
 
 
@@ -773,8 +830,25 @@ def _run_calibrate(case, P, ps, rec, fail_at=None):
     return res
 
 
+def _factor_holder(ps, p):
+    """the Parameter object behind an adjustable name: ordinary parameter, or '<transfer code>_from_<source pop>'"""
+    if p in ps.pars:
+        return ps.pars[p]
+    code, src = p.split("_from_")
+    return ps.transfers[code][src]
+
+
 def _get_factor(ps, p, pop):
-    return float(ps.pars[p].meta_y_factor) if pop == "all" else float(ps.pars[p].y_factor[pop])
+    par = _factor_holder(ps, p)
+    return float(par.meta_y_factor) if pop == "all" else float(par.y_factor[pop])
+
+
+def _set_factor(ps, p, pop, y):
+    par = _factor_holder(ps, p)
+    if pop == "all":
+        par.meta_y_factor = y
+    else:
+        par.y_factor[pop] = y
 
 
 def _check_calibrate(case):
@@ -790,6 +864,8 @@ def _check_calibrate(case):
         labels.append("adjustables:string-form")
     if any(not isinstance(a, str) and a[1] == "all" for a in case["adj"]):
         labels.append("adjustables:meta-factor")
+    if any(not isinstance(a, str) and a[0] not in ps.pars for a in case["adj"]):
+        labels.append("adjustables:transfer")
     if len(set((a[0], a[1]) for a in adj)) != len(adj):
         raise HarnessError("duplicate adjustable")
     for p, pop, lo, hi in adj:
@@ -852,10 +928,7 @@ def _check_calibrate(case):
             raise Violation(ID, "bound-violated", "calibrated factor of %s/%s is %r, outside [%r, %r]; %s" % (p, pop, y, lo, hi, desc))
         if y != _get_factor(ps, p, pop):
             moved = True
-        if pop == "all":
-            expect.pars[p].meta_y_factor = new.pars[p].meta_y_factor
-        else:
-            expect.pars[p].y_factor[pop] = new.pars[p].y_factor[pop]
+        _set_factor(expect, p, pop, (_factor_holder(new, p).meta_y_factor if pop == "all" else _factor_holder(new, p).y_factor[pop]))
     from vlib.canon import canon, diff, SKIP
 
     skip = SKIP | {"name"}
@@ -936,10 +1009,13 @@ def _check_differential(case):
     P, ps, pg = H.fresh(case["model"], case["settings"])
     desc = "case %r" % (case,)
     inst = _instructions(at, case, pg)
-    base_inst = at.ProgramInstructions(start_year=case["start_year"], alloc=pg)
     tvec = np.array(P.settings.tvec)
     model = P.run_sim(ps, pg, inst, store_results=False).model
-    base = P.run_sim(ps, pg, base_inst, store_results=False).model
+    if case.get("base_alloc") is not None:
+        _, _, pg0 = H.fresh(case["model"], case["settings"])
+        base = P.run_sim(ps, pg0, _instructions(at, dict(case, alloc=case["base_alloc"]), pg0), store_results=False).model
+    else:
+        base = P.run_sim(ps, pg, at.ProgramInstructions(start_year=case["start_year"], alloc=pg), store_results=False).model
     labels = ["kind:objective-differential", "model:" + case["model"], "dt:%g" % case["settings"]["dt"]]
     nontrivial = False
     total_own, total_impl, baselines, mobjs = 0.0, 0.0, [], []
@@ -964,22 +1040,17 @@ def _check_differential(case):
         border = False
         if m["cls"] in ("min", "max", "atmost", "atleast"):
             own_t = H.own_term(model, m, q)
-            border = m["cls"] in ("atmost", "atleast") and abs(q - m["threshold"]) <= 1e-12 * max(1.0, abs(m["threshold"]))
+            border = m["cls"] in ("atmost", "atleast") and H.target_state(m, q)[1]
         elif m["cls"] == "plain":
             own_t = m["weight"] * q
         else:
             if bl is None or not _close(float(bl), q0):
                 raise Violation(ID, "objective/baseline-differs", "%s baseline %r, documented sum on the baseline run %r; %s" % (m["cls"], bl, q0, desc))
-            sign = 1.0 if m["cls"] == "incby" else -1.0
-            if m["target_type"] == "frac":
-                if q0 == 0:
-                    labels.append("relative-target-on-zero-baseline")
-                    continue
-                need = q0 * (1.0 + sign * m["amount"])
-            else:
-                need = q0 + sign * m["amount"]
-            border = abs(q - need) <= 1e-9 * max(1.0, abs(need))
-            own_t = (INF if q < need else 0.0) if m["cls"] == "incby" else (INF if q > need else 0.0)
+            m["base"] = q0
+            if q0 == 0:
+                labels.append("relative-target-on-zero-baseline")
+            violated, border = H.target_state(m, q)
+            own_t = INF if violated else 0.0
         if not border and not _close(got_t, own_t):
             raise Violation(ID, "objective/term-differs", "%s term %r, own %r (quantity %r, baseline quantity %r, spec %r); %s" % (m["cls"], got_t, own_t, q, q0, m, desc))
         if border:
